@@ -191,6 +191,9 @@ impl BlteBuilder {
             super::error::BlteError::CompressionError("No encryption config set".to_string())
         })?;
 
+        // The chunk table records the size of the decoded content, not of the
+        // inner payload (which carries a mode byte and may be compressed)
+        let content_len = data.len();
         let inner = self.build_inner_payload(data)?;
 
         // Encrypt the payload (mode byte + compressed/raw data)
@@ -200,7 +203,7 @@ impl BlteBuilder {
         Ok(ChunkData::from_compressed(
             CompressionMode::Encrypted,
             encrypted_data,
-            Some(inner.len()),
+            Some(content_len),
         ))
     }
 
@@ -212,6 +215,7 @@ impl BlteBuilder {
         key: [u8; 16],
         block_index: usize,
     ) -> BlteResult<ChunkData> {
+        let content_len = data.len();
         let inner = self.build_inner_payload(data)?;
 
         // Encrypt the payload (mode byte + compressed/raw data)
@@ -220,7 +224,7 @@ impl BlteBuilder {
         Ok(ChunkData::from_compressed(
             CompressionMode::Encrypted,
             encrypted_data,
-            Some(inner.len()),
+            Some(content_len),
         ))
     }
 
